@@ -8,3 +8,55 @@ package raftpb
 //@ func GetEntrySliceInMemSize [C19]
 
 //@ func GetEntrySliceSize [C19]
+
+// ---------------------------------------------------------------- C13: sizes of the hand-written Entry codec (Int mode, exact machine arithmetic)
+
+// vlen(x): number of 7-bit groups of the varint encoding of x (1..10)
+//@ pure vlen(x int) := ite(x < 128, 1, ite(x < 16384, 2, ite(x < 2097152, 3, ite(x < 268435456, 4, ite(x < 34359738368, 5, ite(x < 4398046511104, 6, ite(x < 562949953421312, 7, ite(x < 72057594037927936, 8, ite(x < 9223372036854775808, 9, 10)))))))))
+// encoded size of a uint64 field (tag + fixed 8 bytes from 2^49 on, tag + varint below, nothing for zero)
+//@ pure fsz(x int) := ite(x >= 562949953421312, 9, ite(x != 0, 1 + vlen(x), 0))
+//@ pure tsz(v int) := ite(v != 0, 1 + vlen(ite(v < 0, 0 - v, v)), 0)
+//@ pure csz(n int) := ite(n != 0, n + 1 + vlen(n), 0)
+//@ pred (m *Entry) esize() := 1 + fsz(m.Term) + fsz(m.Index) + tsz(m.Type) + fsz(m.Key) + fsz(m.ClientID) + fsz(m.SeriesID) + fsz(m.RespondedTo) + csz(len(m.Cmd))
+
+//@ func (m *Entry) SizeUpperLimit [C13]
+//@ ensures result == 128 + len(m.Cmd)
+
+//@ func (m *Entry) Size [C13]
+//@ ensures result == m.esize()
+//@ ensures result <= 128 + len(m.Cmd)
+//@ loop 1 invariant x >= 0 && m.Term != 0 && m.Term < 562949953421312 && l + vlen(x) == 1 + 2 + vlen(m.Term)
+//@ loop 2 invariant x >= 0 && m.Index != 0 && m.Index < 562949953421312 && l + vlen(x) == 1 + fsz(m.Term) + 2 + vlen(m.Index)
+//@ loop 3 invariant x >= 0 && m.Type != 0 && l + vlen(x) == 1 + fsz(m.Term) + fsz(m.Index) + 2 + vlen(ite(m.Type < 0, 0 - m.Type, m.Type))
+//@ loop 4 invariant x >= 0 && m.Key != 0 && m.Key < 562949953421312 && l + vlen(x) == 1 + fsz(m.Term) + fsz(m.Index) + tsz(m.Type) + 2 + vlen(m.Key)
+//@ loop 5 invariant x >= 0 && m.ClientID != 0 && m.ClientID < 562949953421312 && l + vlen(x) == 1 + fsz(m.Term) + fsz(m.Index) + tsz(m.Type) + fsz(m.Key) + 2 + vlen(m.ClientID)
+//@ loop 6 invariant x >= 0 && m.SeriesID != 0 && m.SeriesID < 562949953421312 && l + vlen(x) == 1 + fsz(m.Term) + fsz(m.Index) + tsz(m.Type) + fsz(m.Key) + fsz(m.ClientID) + 2 + vlen(m.SeriesID)
+//@ loop 7 invariant x >= 0 && m.RespondedTo != 0 && m.RespondedTo < 562949953421312 && l + vlen(x) == 1 + fsz(m.Term) + fsz(m.Index) + tsz(m.Type) + fsz(m.Key) + fsz(m.ClientID) + fsz(m.SeriesID) + 2 + vlen(m.RespondedTo)
+//@ loop 8 invariant x >= 0 && x <= len(m.Cmd) && len(m.Cmd) != 0 && l + vlen(x) == 1 + fsz(m.Term) + fsz(m.Index) + tsz(m.Type) + fsz(m.Key) + fsz(m.ClientID) + fsz(m.SeriesID) + fsz(m.RespondedTo) + len(m.Cmd) + 2 + vlen(len(m.Cmd))
+
+//@ func (m *Entry) marshalTo [C13]
+//@ requires len(buf) >= m.esize()
+//@ modifies elems(buf)
+//@ ensures result == m.esize()
+//@ loop 1 modifies elems(buf)
+//@ loop 1 invariant x >= 0 && i >= 0 && m.Term != 0 && m.Term < 562949953421312 && i + vlen(x) == 0 + 1 + vlen(m.Term)
+//@ loop 2 modifies elems(buf)
+//@ loop 2 invariant x >= 0 && i >= 0 && m.Index != 0 && m.Index < 562949953421312 && i + vlen(x) == 0 + fsz(m.Term) + 1 + vlen(m.Index)
+//@ loop 3 modifies elems(buf)
+//@ loop 3 invariant x >= 0 && i >= 0 && m.Type != 0 && i + vlen(x) == 0 + fsz(m.Term) + fsz(m.Index) + 1 + vlen(ite(m.Type < 0, 0 - m.Type, m.Type))
+//@ loop 4 modifies elems(buf)
+//@ loop 4 invariant x >= 0 && i >= 0 && m.Key != 0 && m.Key < 562949953421312 && i + vlen(x) == 0 + fsz(m.Term) + fsz(m.Index) + tsz(m.Type) + 1 + vlen(m.Key)
+//@ loop 5 modifies elems(buf)
+//@ loop 5 invariant x >= 0 && i >= 0 && m.ClientID != 0 && m.ClientID < 562949953421312 && i + vlen(x) == 0 + fsz(m.Term) + fsz(m.Index) + tsz(m.Type) + fsz(m.Key) + 1 + vlen(m.ClientID)
+//@ loop 6 modifies elems(buf)
+//@ loop 6 invariant x >= 0 && i >= 0 && m.SeriesID != 0 && m.SeriesID < 562949953421312 && i + vlen(x) == 0 + fsz(m.Term) + fsz(m.Index) + tsz(m.Type) + fsz(m.Key) + fsz(m.ClientID) + 1 + vlen(m.SeriesID)
+//@ loop 7 modifies elems(buf)
+//@ loop 7 invariant x >= 0 && i >= 0 && m.RespondedTo != 0 && m.RespondedTo < 562949953421312 && i + vlen(x) == 0 + fsz(m.Term) + fsz(m.Index) + tsz(m.Type) + fsz(m.Key) + fsz(m.ClientID) + fsz(m.SeriesID) + 1 + vlen(m.RespondedTo)
+//@ loop 8 modifies elems(buf)
+//@ loop 8 invariant x >= 0 && i >= 0 && len(m.Cmd) != 0 && i + vlen(x) == 0 + fsz(m.Term) + fsz(m.Index) + tsz(m.Type) + fsz(m.Key) + fsz(m.ClientID) + fsz(m.SeriesID) + fsz(m.RespondedTo) + 1 + vlen(len(m.Cmd))
+
+//@ func (m *Entry) MarshalTo [C13]
+//@ requires len(buf) >= m.esize()
+//@ modifies elems(buf)
+//@ ensures result0 == m.esize() && result1 == nil
+
